@@ -858,6 +858,14 @@ class RefQuals:
             if n == "eqk":
                 return "T" if ka == ob else "F"
             return "lt" if ka < ob else ("gt" if ka > ob else "eq")
+        if n == "tit":
+            rc = RefCksum(self.uni)
+            rc.step("raw:%s:%s" % (a[1], a[2]))
+            tx = rc.text()
+            if tx is None:
+                return "ERR:InvalidQualifier:" + hx("Invalid qualifier")
+            self.m["checksum"] = tx
+            return "."
         if n == "tgck":
             t = self.m.get("checksum")
             if t is None:
